@@ -231,7 +231,15 @@ func (t *Type) IsSimpleType() bool {
 
 func ParseType(vt reflect.Type, def string) (*Type, error) {
 	var i int
-	return doParseType(vt, def, &i, true)
+	ret, err := doParseType(vt, def, &i, true)
+	if err != nil {
+		return nil, err
+	}
+	/* the whole type descriptor must be consumed */
+	if tok, _ := readToken(def, &i, true); tok != "" {
+		return nil, ESyntax(i-len(tok), def, "unexpected token after the type")
+	}
+	return ret, nil
 }
 
 func isident(c byte) bool {
@@ -503,14 +511,12 @@ func doMatchStruct(vt reflect.Type, def string, i *int, tv *string) (bool, error
 		return false, err
 	}
 
-	/* anonymous struct */
-	if tn == "" && vt.Kind() == reflect.Struct {
-		return true, nil
-	}
+	/* anonymous struct matches any name */
+	anon := tn == "" && vt.Kind() == reflect.Struct
 
 	/* just a simple type with no qualifiers */
 	if tok == "" || tok == ":" || tok == ">" {
-		return tn == *tv, nil
+		return anon || tn == *tv, nil
 	}
 
 	/* otherwise, it must be a "." */
@@ -527,5 +533,5 @@ func doMatchStruct(vt reflect.Type, def string, i *int, tv *string) (bool, error
 
 	/* update parsing position */
 	*i = sp
-	return tn == *tv, nil
+	return anon || tn == *tv, nil
 }
